@@ -1,7 +1,7 @@
 //! Correspondence harness: runs the real Heathcliff code in-process on generated inputs and
 //! prints one case per line (`fn args => impl-output # class`).  See /verif/DESIGN.md §3.3.
 mod rng; mod util;
-mod big; mod ctx; mod c01; mod c02; mod c03; mod c04; mod c11; mod c05; mod c06; mod c07; mod c08; mod c09; mod c10; mod c13; mod ser; mod c14; mod c15; mod c16; mod c17;
+mod big; mod ctx; mod c01; mod c02; mod c03; mod c04; mod c11; mod c05; mod c06; mod c07; mod c08; mod c09; mod c10; mod c13; mod ser; mod c14; mod c15; mod c16; mod c17; mod c18;
 
 fn main() {
     let a: Vec<String> = std::env::args().collect();
@@ -29,6 +29,7 @@ fn main() {
         "C15" => c15::run(&mut out, thorough, seed, &extra),
         "C16" => c16::run(&mut out, thorough, seed, &extra),
         "C17" => c17::run(&mut out, thorough, seed, &extra),
+        "C18" => c18::run(&mut out, thorough, seed, &extra),
         p => { eprintln!("unknown property {}", p); std::process::exit(2); }
     }
     out.flush();
